@@ -359,8 +359,8 @@ impl ops::Shl<&Object> for &Object {
 
     fn shl(self, rhs: &Object) -> Object {
         match (self, rhs) {
-            (&Object::Integer(a), Object::Integer(b)) => Object::Integer(a << b),
-            (&Object::Byte(a), &Object::Byte(b)) => Object::Byte(a << b),
+            (&Object::Integer(a), Object::Integer(b)) => Object::Integer(a.wrapping_shl(*b as u32)),
+            (&Object::Byte(a), &Object::Byte(b)) => Object::Byte(a.wrapping_shl(b as u32)),
             _ => panic!("Invalid bitwise operation"),
         }
     }
@@ -371,8 +371,8 @@ impl ops::Shr<&Object> for &Object {
 
     fn shr(self, rhs: &Object) -> Object {
         match (self, rhs) {
-            (&Object::Integer(a), Object::Integer(b)) => Object::Integer(a >> b),
-            (&Object::Byte(a), &Object::Byte(b)) => Object::Byte(a >> b),
+            (&Object::Integer(a), Object::Integer(b)) => Object::Integer(a.wrapping_shr(*b as u32)),
+            (&Object::Byte(a), &Object::Byte(b)) => Object::Byte(a.wrapping_shr(b as u32)),
             _ => panic!("Invalid bitwise operation"),
         }
     }
